@@ -354,10 +354,10 @@ def emit_obligations(ctx):
 def canaries(ctx):
     """vacuity guards: same harnesses with -DVERIF_CANARY (every V_COVER must be reachable), small variant"""
     c = []
-    def can(name, harness, entry, defs):
+    def can(name, harness, entry, defs, **kw):
         d = dict(defs, NS="3", PS="2")
-        c.append(Obl("C19.canary.%s" % name, "C19", harness, entry=entry, defines=d, mode="proof", cbmc=UNWIND, timeout=600,
-                     canary=True, replayable=False))
+        c.append(Obl("C19.canary.%s" % name, "C19", harness, entry=entry, defines=d, mode="proof", cbmc=UNWIND,
+                     canary=True, replayable=False, **dict(dict(timeout=600), **kw)))
     can("clearSlot", OPS, "h_clearSlot", {"SYMCFG": None})
     can("handleMidi", OPS, "h_handleMidi", dict(REPL, SYMCFG=None))
     can("enqueue", OPS, "h_enqueue", {"SYMCFG": None})
@@ -369,9 +369,10 @@ def canaries(ctx):
     can("emit.range_i", EMIT, "h_emit_range", {"TYPE_I": None})
     can("updateMapping.points", EMIT, "h_updateMapping_points", {})
     if ctx.tier != "quick":
-        can("emit.default_endpoints_i", EMIT, "h_emit_default_linear", {"TYPE_I": None})
-        can("emit.default_endpoints_f", EMIT, "h_emit_default_linear", {})
-        can("emit.default_endpoints_T", EMIT, "h_emit_default_linear", {"TYPE_T": None})
+        K = dict(solver="kissat", timeout=1200)     # the canary run also has to decide the expensive assertions
+        can("emit.default_endpoints_i", EMIT, "h_emit_default_linear", {"TYPE_I": None}, **K)
+        can("emit.default_endpoints_f", EMIT, "h_emit_default_linear", {}, **K)
+        can("emit.default_endpoints_T", EMIT, "h_emit_default_linear", {"TYPE_T": None}, **K)
     return c
 
 
